@@ -27,7 +27,7 @@
   several periods of the specification; `n` turns = the first `m` periods, `n ≤ m ≤ 24·n` resp. `1440·n`,
   `86400·n`).  Missing: the sub-daily frequencies with those BY lists (the reachability loops
   `__mod_distance` / `minutelyLoop` / `secondlyLoop` beyond their first pass are only proved monotone so
-  far), BYWEEKNO / BYEASTER for the other frequencies, and mixing nth BYDAY / BYEASTER with BYMONTHDAY or plain BYDAY, BYWEEKNO with BYEASTER / nth BYDAY.  Everything else below — including
+  far), BYWEEKNO / BYEASTER for the other frequencies, and mixing nth BYDAY with BYMONTHDAY or plain BYDAY (outside D-C01a), BYWEEKNO with BYEASTER, nth BYDAY with either.  Everything else below — including
   `iter_strictMono` for all seven frequencies — is proved for ALL rules / all argument sets, with no
   `Supported` hypothesis (so also inside the known-defect classes).
 -/
@@ -387,9 +387,9 @@ theorem iter_eq_spec_yearly_bymonth_nth_partial (a : Args) (r : Rule) (na : NthY
 
 /-- **`iter_eq_spec`, proved portion, YEARLY with BYEASTER** on the supported class = the complement of
     D-C01d (offsets −80..250) inside the years 1583..4099 where C19 proves `easter.easter` canonical:
-    INTERVAL ≥ 1, valid start, any BYMONTH / BYYEARDAY / BYHOUR / BYMINUTE / BYSECOND / BYSETPOS, any COUNT /
-    UNTIL, no BYMONTHDAY / BYDAY / BYWEEKNO: exactly the specification's recurrence set (Easter by
-    Meeus/Jones/Butcher). -/
+    INTERVAL ≥ 1, valid start, any BYMONTH / BYMONTHDAY (non-zero) / BYYEARDAY / plain BYDAY / BYHOUR / BYMINUTE /
+    BYSECOND / BYSETPOS, any COUNT / UNTIL, no nth BYDAY / BYWEEKNO: exactly the specification's recurrence
+    set (Easter by Meeus/Jones/Butcher). -/
 theorem iter_eq_spec_yearly_easter_partial (a : Args) (r : Rule) (ea : EasterYArgs a) (h : construct a = .ok r)
     (n : Nat) (hlo : 1583 ≤ a.dtstart.y) (hy : a.dtstart.y + n * a.interval ≤ 4099) :
     (iter r n).1 = Spec.RRule.occ a n :=
@@ -492,7 +492,12 @@ example : dates (construct { freq := 0, dtstart := dt 2024 1 1 12, bymonth := so
 
 -- an EasterYArgs instance: Easter Monday and Ascension Day every year
 example : EasterYArgs { freq := 0, dtstart := dt 2024 1 1 10, byeaster := some [1, 39] } :=
-  ⟨rfl, by decide, by decide, rfl, rfl, rfl, ⟨[1, 39], rfl, by decide, by decide⟩⟩
+  ⟨rfl, by decide, by decide, rfl, by intro x hx; simp at hx, by intro w hw; simp at hw,
+   ⟨[1, 39], rfl, by decide, by decide⟩⟩
+-- … and mixed with plain BYDAY / BYMONTHDAY: Easter Sundays falling on the 31st of March
+example : EasterYArgs { freq := 0, dtstart := dt 2024 1 1 10, byeaster := some [0], byweekday := some [(6, 0)],
+                        bymonthday := some [31] } :=
+  ⟨rfl, by decide, by decide, rfl, by decide, by decide, ⟨[0], rfl, by decide, by decide⟩⟩
 example : dates (construct { freq := 0, dtstart := dt 2024 1 1 10, byeaster := some [1, 39] }) 2
     = [(2024, 4, 1), (2024, 5, 9), (2025, 4, 21), (2025, 5, 29)] := by decide +kernel
 
